@@ -9,7 +9,7 @@ from ..findings import still_fails
 
 ID = "C02"
 LEAN_MODULES = ["PycModel.Properties.C02"]
-NAMESPACES = ["PycModel.C02", "PycModel.Tables", "PycModel.Climb", "PycModel.ClimbSim", "PycModel.ClimbConcrete", "PycModel.View", "PycModel.OperandId", "PycModel.ParenExpr", "PycModel.FullExpr"]
+NAMESPACES = ["PycModel.C02", "PycModel.Tables", "PycModel.Climb", "PycModel.ClimbSim", "PycModel.ClimbConcrete", "PycModel.View", "PycModel.OperandId", "PycModel.ParenExpr", "PycModel.FullExpr", "PycModel.TypeName"]
 REQUIRED_THEOREMS = ["PycModel.Tables.impl_prec_is_c99", "PycModel.Tables.impl_assign_ops_c99",
                      "PycModel.Tables.model_binary_precedence", "PycModel.Tables.model_assignment_ops",
                      "PycModel.Tables.model_starts_expression",
@@ -18,10 +18,10 @@ REQUIRED_THEOREMS = ["PycModel.Tables.impl_prec_is_c99", "PycModel.Tables.impl_a
                      "PycModel.View.peek_spec", "PycModel.View.advance_spec", "PycModel.View.peek_end",
                      "PycModel.ParenExpr.operand_spec", "PycModel.ParenExpr.parse_ok", "PycModel.View.fill_spec", "PycModel.View.peekK_spec",
                      "PycModel.C02.expressions_parse_as_the_grammar_says",
-                     "PycModel.FullExpr.parse_full", "PycModel.FullExpr.all_ok", "PycModel.FullExpr.cps_post", "PycModel.FullExpr.cps_index", "PycModel.FullExpr.cps_call", "PycModel.FullExpr.cps_member", "PycModel.FullExpr.un_pre", "PycModel.FullExpr.un_szof", "PycModel.FullExpr.un_of_cps", "PycModel.FullExpr.cast_of_un", "PycModel.FullExpr.pConstant_ok", "PycModel.C02.expression_skeleton_parses_as_the_grammar_says"]
+                     "PycModel.FullExpr.parse_full", "PycModel.FullExpr.all_ok", "PycModel.FullExpr.cps_post", "PycModel.FullExpr.cps_index", "PycModel.FullExpr.cps_call", "PycModel.FullExpr.cps_member", "PycModel.FullExpr.un_pre", "PycModel.FullExpr.un_szof", "PycModel.FullExpr.un_of_cps", "PycModel.FullExpr.cast_of_un", "PycModel.FullExpr.cast_cast", "PycModel.FullExpr.un_szofT", "PycModel.TypeName.typeName_ok", "PycModel.TypeName.tryParen_type", "PycModel.TypeName.sql_loop", "PycModel.TypeName.fixTypename_ok", "PycModel.FullExpr.pConstant_ok", "PycModel.C02.expression_skeleton_parses_as_the_grammar_says"]
 LEVEL = "proof"
 TRUSTED = ["Spec/Expr.lean: our reading of C99 6.5 (strata, associativity) and of the documented AST shapes"]
-ASSUMPTIONS = ["of the expressions that contain a type name only casts (to seven keyword / pointer type names) are in the specification language; sizeof(type), compound literals, _Alignof and offsetof are exercised by C03/C04/C01"]
+ASSUMPTIONS = ["of the expressions that contain a type name, casts and sizeof(type) over qualifier / keyword / typedef-name specifiers and pointers are inside the theorem and the generators; compound literals, _Alignof, offsetof and type names with array / function parts are exercised by C03/C04/C01"]
 
 
 def run(ctx):
